@@ -200,6 +200,7 @@ class DriverGen:
         for m, fn in roots:
             out.append("        if(cur == \"%s\") { ::%s::messages::%s<char> m{p, n};" % (m.name, s.package, m.name))
             out.append("          if(a[0] == \"size\") res = std::to_string(static_cast<unsigned long long>(sbepp::size_bytes(m)));")
+            out.append("          else if(a[0] == \"sbc\") { auto r = sbepp::size_bytes_checked(m, n); res = r.valid ? (\"valid \" + std::to_string(static_cast<unsigned long long>(r.size))) : std::string(\"invalid\"); }")
             out.append("          else if(a[0] == \"fillhdr\") { auto h = sbepp::fill_message_header(m); res = (sbepp::addressof(h) == sbepp::addressof(m)) ? \"ok\" : \"ERRHDRVIEW\"; }")
             ng = count_groups(m)
             args = ", ".join(["static_cast<decltype(mh::arg_type<%d>(&sbepp::message_traits<::%s::schema::messages::%s>::size_bytes))>(std::strtoull(a[%d].c_str(), nullptr, 10))" % (i, s.package, m.name, i + 1) for i in range(ng + (1 if has_data(m) else 0))])
@@ -217,7 +218,7 @@ class DriverGen:
             out.append("            else if(c.op == \"setf\" || c.op == \"setft\") { c.arg = a[4]; }")
             out.append("            else if(a.size() > 3) c.arg = a[3];")
             out.append("            res = %s(m, c, 0); } }" % fn)
-        out.append("      });\n      if(st == 1) res = \"ASSERT\"; else if(st == 2) res = \"FAULT\";\n    }\n"
+        out.append("      }, 3);\n      if(st == 1) res = \"ASSERT\"; else if(st == 2) res = \"FAULT\"; else if(st == 3) res = \"TIMEOUT\";\n    }\n"
                    "    std::cout << res << \"\\n\";\n  }\n  return 0;\n}\n")
         return "\n".join(out).replace("#include \"msg_harness.hpp\"", "#include <memory>\n#include \"msg_harness.hpp\"")
 
